@@ -312,13 +312,13 @@ func (scalarRule) callScalar(cv curveRef, k *big.Int) bool {
 }
 
 type c06aCase struct {
-	Site   string
-	Curve  string
-	Set    int
-	VSet   int
-	Pos    []int
-	Vals   []string
-	Raw    H
+	Site  string
+	Curve string
+	Set   int
+	VSet  int
+	Pos   []int
+	Vals  []string
+	Raw   H
 }
 
 var c06ValueClasses = []string{"0", "1", "2", "q-1", "q", "q+1", "2q", "N-1", "N", "N+1", "N^2", "N^2-1", "NT", "NT-1", "p", "p-1", "P", "2^256", "2^1024", "2^2048", "2^4096+1", "huge", "flip", "+1", "-1", "other", "q^3", "q^3+1", "q^7+1", "kq", "negmodN"}
